@@ -182,19 +182,16 @@ unsafe fn level_swap<M: Manager>(
             .collect();
 
         drop(grandchildren);
+        // Remember the "old" children of `e` that are on the old lower level.
+        // (A child might also be at some lower level, in which case the node
+        // could also be removed. However we must not access such a node.)
+        let mut old_children: SmallVec<[&M::InnerNode; 2]> = SmallVec::new();
         for child in children {
-            // Revisit the "old" children of `e`. If these are the only
-            // children, we may remove them, if they are on the old lower level.
-            // (A child might also be at some lower level, in which case the
-            // node could also be removed. However we must not access such a
-            // node.)
             if let Node::Inner(child_node) = manager.get_node(&*child)
                 && child_node.level() == lower_no_pre
-                && child_node.ref_count() == 1
+                && !old_children.iter().any(|n| std::ptr::eq(*n, child_node))
             {
-                // The reference stems from the old `node`, whose children
-                // we replace below. Hence, we can remove child node.
-                upper.remove(child_node);
+                old_children.push(child_node);
             }
         }
 
@@ -203,6 +200,16 @@ unsafe fn level_swap<M: Manager>(
             // SAFETY: we have exclusive access to all nodes at the old upper
             // level and no child is borrowed.
             manager.drop_edge(unsafe { node.set_child(i, child) });
+        }
+
+        for child_node in old_children {
+            if child_node.ref_count() == 0 {
+                // The only references stemmed from the old `node`, whose
+                // children we replaced above. The edges must be dropped while
+                // the child is still in the unique table, so we can only
+                // remove the child node now.
+                upper.remove(child_node);
+            }
         }
     }
 
